@@ -222,6 +222,9 @@ func (r Rng) lineCase() (lon0, lat0, alt0, lon1, lat1, alt1 float64, H, V int64)
 	lon1, lat1, alt1 = realCoord(x1, y1, f1, H, V)
 	cl := func(v float64) float64 { return clamp(v, -latLimit, latLimit) }
 	lat0, lat1 = cl(lat0), cl(lat1)
+	if math.Abs(alt0) < math.Ldexp(1, int(25-V)) && r.Chance(0.2) {
+		alt0 = math.Copysign(0, -1) // negative zero: still altitude 0
+	}
 	if r.Chance(0.15) {
 		// way points as they are written down: a fixed number of decimals, altitudes in half metres / feet
 		p := math.Pow(10, float64(r.In(4, 10)))
